@@ -33,10 +33,16 @@ type World struct {
 	c         *Case
 	rootNames []string // all root attribute names over all files, sorted
 	roots     []hcl.Body
-	rootTgts  []hcl.Body // files, merged, remain bodies: decode targets
-	bodies    []bodyEnt  // every body reachable, for content ops
-	exprs     []hcl.Expression
-	exprNames []string
+	merged    hcl.Body
+	cat       *catalog
+	// pretouch worlds resolve every recipe once at set-up (every shared body
+	// has then already answered a Content call when the tasks start); lazy
+	// worlds resolve inside the task, so that first uses of the shared tree
+	// happen concurrently.
+	pretouch bool
+	bodies   []bodyEnt // pretouch only
+	exprs    []hcl.Expression
+	remains  []hcl.Body
 	funcs     map[string]function.Function
 	sharedCtx *hcl.EvalContext
 	funcCtx   *hcl.EvalContext
@@ -173,12 +179,13 @@ func (w *World) applyFault(kind int, cb, arg string) error {
 	case fReenter:
 		t := w.task()
 		pt := &w.rs.pt[t]
-		if pt.depth < 2 && len(w.exprs) > 0 {
+		if pt.depth < 2 && w.nExprs() > 0 {
 			pt.depth++
-			idx := int(zzsim.Mix(strHash(arg), uint64(pt.op)) % uint64(len(w.exprs)))
+			idx := int(zzsim.Mix(strHash(arg), uint64(pt.op)) % uint64(w.nExprs()))
 			ctx := w.taskCtx[t].NewChild()
-			v, d := w.exprs[idx].Value(ctx)
-			pt.side = append(pt.side, fmt.Sprintf("reenter[%s]=%s !%s", w.exprNames[idx], dumpVal(v), dumpDiags(d)))
+			e, name := w.expr(idx)
+			v, d := e.Value(ctx)
+			pt.side = append(pt.side, fmt.Sprintf("reenter[%s]=%s !%s", name, dumpVal(v), dumpDiags(d)))
 			pt.depth--
 		}
 	}
@@ -315,9 +322,63 @@ func (w *World) kindSchema(kind string) *hcl.BodySchema {
 	panic("kind " + kind)
 }
 
-func (w *World) walk(body hcl.Body, kind, path string, diagsOut *hcl.Diagnostics) {
-	w.bodies = append(w.bodies, bodyEnt{body, kind})
-	content, diags := body.Content(w.kindSchema(kind))
+// step descends into the idx-th block of the content obtained with the full
+// schema of the current body kind; kind is the kind of the body reached.
+type step struct {
+	idx  int
+	kind string
+}
+
+type bodyRecipe struct {
+	root  int // index into roots; len(roots) = the merged body
+	steps []step
+	kind  string
+}
+
+type exprRecipe struct {
+	body bodyRecipe
+	attr string
+	name string
+}
+
+// catalog lists every body and attribute expression reachable in a case's
+// configuration as navigation recipes.  It is computed once, on the private
+// reference world, and is valid for the shared world too (same sources).
+type catalog struct {
+	bodies []bodyRecipe
+	exprs  []exprRecipe
+}
+
+func (w *World) rootBody(i int) hcl.Body {
+	if i >= len(w.roots) {
+		return w.merged
+	}
+	return w.roots[i]
+}
+
+func (w *World) resolveBody(r bodyRecipe) hcl.Body {
+	body := w.rootBody(r.root)
+	kind := "root"
+	for _, st := range r.steps {
+		content, _ := body.Content(w.kindSchema(kind))
+		if st.idx >= len(content.Blocks) {
+			panic("catalog recipe does not resolve")
+		}
+		body = content.Blocks[st.idx].Body
+		kind = st.kind
+	}
+	return body
+}
+
+func (w *World) resolveExpr(r exprRecipe) hcl.Expression {
+	body := w.resolveBody(r.body)
+	content, _ := body.Content(w.kindSchema(r.body.kind))
+	return content.Attributes[r.attr].Expr
+}
+
+func (w *World) walk(body hcl.Body, rec bodyRecipe, path, dynLabel string, diagsOut *hcl.Diagnostics) {
+	w.cat.bodies = append(w.cat.bodies, rec)
+	content, diags := body.Content(w.kindSchema(rec.kind))
 	*diagsOut = append(*diagsOut, diags...)
 	names := make([]string, 0, len(content.Attributes))
 	for n := range content.Attributes {
@@ -325,25 +386,79 @@ func (w *World) walk(body hcl.Body, kind, path string, diagsOut *hcl.Diagnostics
 	}
 	sort.Strings(names)
 	for _, n := range names {
-		w.exprs = append(w.exprs, content.Attributes[n].Expr)
-		w.exprNames = append(w.exprNames, path+"/"+n)
+		w.cat.exprs = append(w.cat.exprs, exprRecipe{body: rec, attr: n, name: path + "/" + n})
 	}
 	for i, bl := range content.Blocks {
 		p := fmt.Sprintf("%s/%s[%d]", path, bl.Type, i)
+		kind := bl.Type
+		dl := ""
 		switch bl.Type {
 		case "dynamic":
-			w.walk(bl.Body, "dyn", p, diagsOut)
-			// the content body's kind is the generated block type
-			dc, _, _ := bl.Body.PartialContent(&hcl.BodySchema{Blocks: []hcl.BlockHeaderSchema{{Type: "content"}}})
-			for _, cb := range dc.Blocks {
-				w.walk(cb.Body, bl.Labels[0], p+"/content", diagsOut)
-			}
+			kind, dl = "dyn", bl.Labels[0]
 		case "content":
-			// walked above with its proper kind
-		default:
-			w.walk(bl.Body, bl.Type, p, diagsOut)
+			kind = dynLabel
+		}
+		child := bodyRecipe{root: rec.root, steps: append(append([]step{}, rec.steps...), step{i, kind}), kind: kind}
+		w.walk(bl.Body, child, p, dl, diagsOut)
+	}
+}
+
+// halfSchema is the schema used to produce the shared "remain" bodies.
+func (w *World) halfSchema(i int) *hcl.BodySchema {
+	full := w.kindSchema("root")
+	half := &hcl.BodySchema{}
+	for j, a := range full.Attributes {
+		if (j+i)%2 == 0 {
+			half.Attributes = append(half.Attributes, a)
 		}
 	}
+	half.Blocks = full.Blocks[:1+i%2]
+	return half
+}
+
+func (w *World) nExprs() int { return len(w.cat.exprs) }
+
+func (w *World) expr(i int) (hcl.Expression, string) {
+	i %= len(w.cat.exprs)
+	if w.pretouch {
+		return w.exprs[i], w.cat.exprs[i].name
+	}
+	return w.resolveExpr(w.cat.exprs[i]), w.cat.exprs[i].name
+}
+
+// body returns the i-th content target: every catalogued body, then the merged
+// body, then one remain body per root target.
+func (w *World) body(i int) bodyEnt {
+	n := len(w.cat.bodies)
+	i %= n + 1 + len(w.roots) + 1
+	switch {
+	case i < n:
+		if w.pretouch {
+			return w.bodies[i]
+		}
+		return bodyEnt{w.resolveBody(w.cat.bodies[i]), w.cat.bodies[i].kind}
+	case i == n:
+		return bodyEnt{w.merged, "root"}
+	}
+	return bodyEnt{w.remain(i - n - 1), "root"}
+}
+
+func (w *World) remain(i int) hcl.Body {
+	if w.pretouch {
+		return w.remains[i]
+	}
+	_, remain, _ := w.rootBody(i).PartialContent(w.halfSchema(i))
+	return remain
+}
+
+// rootTarget returns the i-th decode target: files, merged, remain bodies.
+func (w *World) rootTarget(i int) hcl.Body {
+	k := len(w.roots) + 1
+	i %= 2 * k
+	if i < k {
+		return w.rootBody(i)
+	}
+	return w.remain(i - k)
 }
 
 func (w *World) buildSpec() hcldec.Spec {
@@ -385,7 +500,7 @@ func (w *World) buildSpec() hcldec.Spec {
 }
 
 // buildWorld parses everything afresh.  The simulator must be off or counting.
-func buildWorld(c *Case) *World {
+func buildWorld(c *Case, cat *catalog, pretouch bool) *World {
 	w := &World{c: c, rs: &runState{}}
 	var sd hcl.Diagnostics
 	for _, f := range c.Files {
@@ -421,35 +536,40 @@ func buildWorld(c *Case) *World {
 		sd = append(sd, diags...)
 		w.roots = append(w.roots, file.Body)
 	}
-	merged := hcl.MergeBodies(w.roots)
-	w.rootTgts = append(w.rootTgts, w.roots...)
-	w.rootTgts = append(w.rootTgts, merged)
-	for i, b := range w.roots {
-		w.walk(b, "root", fmt.Sprintf("f%d", i), &sd)
-	}
-	w.bodies = append(w.bodies, bodyEnt{merged, "root"})
-	// remain bodies: what partial processing leaves behind is itself a shared object
-	full := w.kindSchema("root")
-	for i, b := range w.rootTgts[:len(w.roots)+1] {
-		half := &hcl.BodySchema{}
-		for j, a := range full.Attributes {
-			if (j+i)%2 == 0 {
-				half.Attributes = append(half.Attributes, a)
-			}
+	w.merged = hcl.MergeBodies(w.roots)
+	if cat == nil {
+		// reference world: build the catalogue by walking everything
+		w.cat = &catalog{}
+		for i, b := range w.roots {
+			w.walk(b, bodyRecipe{root: i, kind: "root"}, fmt.Sprintf("f%d", i), "", &sd)
 		}
-		half.Blocks = full.Blocks[:1+i%2]
-		_, remain, d := b.PartialContent(half)
-		sd = append(sd, d...)
-		w.bodies = append(w.bodies, bodyEnt{remain, "root"})
-		w.rootTgts = append(w.rootTgts, remain)
+		w.pretouch = true
+	} else {
+		w.cat = cat
+		w.pretouch = pretouch
+	}
+	if w.pretouch {
+		for _, r := range w.cat.bodies {
+			w.bodies = append(w.bodies, bodyEnt{w.resolveBody(r), r.kind})
+		}
+		for _, r := range w.cat.exprs {
+			w.exprs = append(w.exprs, w.resolveExpr(r))
+		}
+		// remain bodies: what partial processing leaves behind is itself a shared object
+		for i := 0; i <= len(w.roots); i++ {
+			_, remain, d := w.rootBody(i).PartialContent(w.halfSchema(i))
+			sd = append(sd, d...)
+			w.remains = append(w.remains, remain)
+		}
 	}
 	w.spec = w.buildSpec()
 	var opts []dynblock.ExpandOption
 	if c.ExpandCheck {
 		opts = append(opts, dynblock.OptCheckForEach(w.checkForEachCB()))
 	}
-	for _, b := range w.rootTgts {
-		w.expanded = append(w.expanded, dynblock.Expand(b, w.sharedCtx, opts...))
+	// shared Expand results (Expand itself does not touch the body)
+	for i := 0; i <= len(w.roots); i++ {
+		w.expanded = append(w.expanded, dynblock.Expand(w.rootBody(i), w.sharedCtx, opts...))
 	}
 	// per-task base contexts
 	for _, t := range c.Tasks {
